@@ -33,7 +33,7 @@ def budget(tier):
     return 400 if tier == "quick" else 20000
 
 
-def mk_judge(alen, nops):
+def mk_judge(alen, nops, toks=None):
     def j(c_out):
         if c_out.startswith("TIMEOUT"):
             return "a call did not return within the time limit"
@@ -44,6 +44,18 @@ def mk_judge(alen, nops):
             if m and (int(m.group(1)) >= 2 ** 32 or int(m.group(2)) >= 2 ** 32):
                 return ("a returned header declares length %s / compressed length %s: more than the 32-bit fields of the format can say "
                         "(the bound 'work <= bytes present and declared size' is void; a wrapped subtraction)" % (m.group(1), m.group(2)))
+        if toks is not None:
+            # decoding a member stops after at most its DECLARED uncompressed length (also when that length is 0)
+            res = c_out.split(" live=")[0].split(";")
+            declared, got = None, 0
+            for o, x in zip(toks, res):
+                if o == "n":
+                    m = re.match(r"H\d+:[^:]*:[^:]*:[^:]*:[0-9a-f]*:(\d+):(\d+)$", x)
+                    declared, got = (int(m.group(1)) if m else None), 0
+                elif o.startswith("r") and declared is not None and re.match(r"^[0-9a-f]+$", x):
+                    got += len(x) // 2
+                    if got > declared:
+                        return "reads on a member returned %d bytes, its header declares %d" % (got, declared)
         cnt = A.rdr_counters(c_out)
         if "reads" in cnt:
             if cnt["reads"] > 2 * alen + 16 * nops + 64:
@@ -122,7 +134,7 @@ def gen_cases(ctx, n):
         if tag == "extreme" and len(d) > 30000:
             # tens of thousands of extended headers: the Lean model handles the chain as a list (quadratic): the C alone is judged
             tags |= {"c-only", "very-long-chain"}
-        out.append(Case(A.rdr_op(kind, r.choice(A.POLICIES), toks, d), judge=mk_judge(len(d), len(toks)), tags=tags, note=tag))
+        out.append(Case(A.rdr_op(kind, r.choice(A.POLICIES), toks, d), judge=mk_judge(len(d), len(toks), toks), tags=tags, note=tag))
     # every truncation of a few small archives, listing and decoding, all kinds
     for name, d in r.sample(smalls, min(len(smalls), 3 if ctx.tier == "quick" else 25)):
         step = max(1, len(d) // (60 if ctx.tier == "quick" else 400))
@@ -145,6 +157,13 @@ def gen_cases(ctx, n):
     base = len(out)
     for kind in A.KINDS:
         add(long_chain(r), ["n", "n"], kind, "extreme")
+        # a member that DECLARES length 0 while compressed data is present (0 is a length, not "unknown"): reads deliver nothing
+        for meth_, data_ in ((b"-lh0-", S.rand_bytes(r, 3000)), (b"-lz4-", S.rand_bytes(r, 100)), (b"-lzs-", S.rand_bytes(r, 600))):
+            fz = E.Fields(level=r.choice([0, 1, 2]), method=meth_, clen=len(data_), length=0, crc=0, name=b"zero.bin", os_type=0x55)
+            if fz.level == 2:
+                fz.exts = [(E.EXT_FILENAME, b"zero.bin")]; fz.name = b""
+            g2 = E.Fields(level=1, method=b"-lh0-", clen=3, length=3, crc=E.crc16(b"end"), name=b"end", os_type=0x55)
+            add(E.encode(fz) + data_ + E.encode(g2) + b"end\0", ["n", "r100000", "r100000", "n", "r10", "n"], kind, "declared-zero")
     while len(out) < base + n:
         k = r.random()
         kind = r.choice(A.KINDS)
